@@ -40,20 +40,22 @@ PEER = ('10.0.0.9', 5555)
 
 
 def make_bundle(total_len, seq=0):
-    ''' A valid encoded bundle of exactly total_len octets (>= 40). '''
-    for pad in range(0, 6):
-        plen = max(0, total_len - 34 - pad)
-        for trial in range(plen, plen + 8):
-            pri = dict(version=7, flags=0, crc_type=0, dest='dtn://d/', src='dtn://s/', report_to='dtn:none', create_time=1000 + seq,
-                       seqno=seq % 20, lifetime=1000, frag_offset=None, total_adu_len=None, crc=None)
-            data = bytes(((pos * 59) ^ (seq * 7) ^ (pos >> 8) ^ 0x3c) & 0xFF for pos in range(trial))
-            enc = bpv7.encode(dict(primary=pri, blocks=[dict(type=1, num=1, flags=0, crc_type=0, data=data, crc=None)]))
-            if len(enc) == total_len:
+    ''' A valid encoded bundle of exactly total_len octets (>= 40); lengths that cannot be hit exactly (CBOR head-size
+    jump of the payload byte string) are rounded up to the next one that can. '''
+    pri = dict(version=7, flags=0, crc_type=0, dest='dtn://d/', src='dtn://s/', report_to='dtn:none', create_time=1000 + seq,
+               seqno=seq % 20, lifetime=1000, frag_offset=None, total_adu_len=None, crc=None)
+
+    def encode(plen):
+        data = bytes(((pos * 59) ^ (seq * 7) ^ (pos >> 8) ^ 0x3c) & 0xFF for pos in range(plen))
+        return bpv7.encode(dict(primary=pri, blocks=[dict(type=1, num=1, flags=0, crc_type=0, data=data, crc=None)]))
+
+    overhead = len(encode(0))
+    for want in range(total_len, total_len + 16):
+        for plen in range(max(0, want - overhead - 10), max(0, want - overhead) + 1):
+            enc = encode(plen)
+            if len(enc) == want:
                 return enc
-            if len(enc) > total_len:
-                break
-    # lengths that cannot be hit exactly (head-size jump): take the next one up
-    return make_bundle(total_len + 1, seq)
+    raise ValueError('no bundle of about %d octets' % total_len)
 
 
 class UdpNode(object):
